@@ -2,11 +2,16 @@ package vsym
 
 import (
 	"crypto"
+	"crypto/ecdh"
+	"crypto/ecdsa"
+	"crypto/ed25519"
+	"crypto/elliptic"
 	"crypto/rand"
 	"crypto/rsa"
 	"crypto/x509"
 	"crypto/x509/pkix"
 	"encoding/hex"
+	"encoding/pem"
 	"errors"
 	"io"
 	"math/big"
@@ -86,7 +91,10 @@ func issue(s *SymSigner, serial *big.Int, subject pkix.Name) *x509.Certificate {
 		if b, err := hex.DecodeString(m.Bytes["ca.cn"]); err == nil && len(b) == 7 {
 			cn = string(b)
 		}
-		tmpl := &x509.Certificate{SerialNumber: big.NewInt(1), Subject: pkix.Name{CommonName: cn},
+		// the name is stored as UTF8String, which is valid DER but not the string type Go's encoder
+		// would choose: code that re-encodes a parsed name instead of copying its bytes shows
+		rawName := append([]byte{0x30, 0x12, 0x31, 0x10, 0x30, 0x0e, 0x06, 0x03, 0x55, 0x04, 0x03, 0x0c, 0x07}, cn...)
+		tmpl := &x509.Certificate{SerialNumber: big.NewInt(1), Subject: pkix.Name{CommonName: cn}, RawSubject: rawName,
 			NotBefore: time.Unix(1600000000, 0), NotAfter: time.Unix(2500000000, 0), IsCA: true, BasicConstraintsValid: true, KeyUsage: x509.KeyUsageCertSign}
 		der, err := x509.CreateCertificate(rand.Reader, tmpl, tmpl, &caKey.PublicKey, caKey)
 		if err != nil {
@@ -113,4 +121,33 @@ func CertRawLen(n int) {}
 // the key of signer ("another key under the same issuer and serial").
 func CertSameID(signer crypto.Signer, like *x509.Certificate) *x509.Certificate {
 	return issue(signer.(*SymSigner), like.SerialNumber, pkix.Name{CommonName: "vsym other holder"})
+}
+
+// KeyPEM returns the PEM text ("PRIVATE KEY") of a freshly made PKCS#8 private key: kind 0 RSA,
+// 1 ECDSA P-256, 2 Ed25519, 3 X25519; 4: a PEM block whose bytes are not PKCS#8.  Under the executor
+// the text is opaque and x509.ParsePKCS8PrivateKey on its bytes is a stub returning a key of the
+// documented type for the kind.
+func KeyPEM(kind int) []byte {
+	var key interface{}
+	var err error
+	switch kind {
+	case 0:
+		key = keyFor("keypem-rsa")
+	case 1:
+		key, err = ecdsa.GenerateKey(elliptic.P256(), rand.Reader)
+	case 2:
+		_, key, err = ed25519.GenerateKey(rand.Reader)
+	case 3:
+		key, err = ecdh.X25519().GenerateKey(rand.Reader)
+	default:
+		return pem.EncodeToMemory(&pem.Block{Type: "PRIVATE KEY", Bytes: []byte{1, 2, 3}})
+	}
+	if err != nil {
+		panic(err)
+	}
+	der, err := x509.MarshalPKCS8PrivateKey(key)
+	if err != nil {
+		panic(err)
+	}
+	return pem.EncodeToMemory(&pem.Block{Type: "PRIVATE KEY", Bytes: der})
 }
